@@ -103,7 +103,9 @@ class FluorSpectrumBase(DFunction, EnergyUnitsManaged):
         step = (omax-omin)/length
         
         # new frequency axis
-        waxis = FrequencyAxis(omin, length, step)
+        # the points are already in internal units
+        with energy_units("int"):
+            waxis = FrequencyAxis(omin, length, step)
         
         # spline interpolation 
         tck = interpolate.splrep(om, y, s=0)
